@@ -74,9 +74,10 @@ crate::harnesses! {
 
     /// every NaN / infinity bit pattern of f64 (any payload, any sign), default options.
     /// @prop C15 C09 C17
+    /// @tier thorough
     /// @feat default radix_format
     /// @fn lexical-write-float::write::WriteFloat::write_float (sign handling, special dispatch)
-    /// @timeout 900
+    /// @timeout 3600
     #[cfg_attr(kani, kani::unwind(12))]
     fn write_special_default_f64() {
         let m64: u64 = any();
